@@ -33,6 +33,7 @@ K_MB = "C17-loc-char-index-vs-byte-offset"
 K_DUP = "C17-loc-duplicate-offsets"
 K_ML = "C17-print-multiline-span"
 K_RP = "C17-rowan-parser-panics-on-invalid-input"
+K_JS = "C17-jsformat-column-plus-one"
 
 
 def cq_nlist(xs):
@@ -79,7 +80,7 @@ def loc_cases(run):
                         cases.append((text, [a, b]))
     # random
     pool = ["a", "b", "z", " ", "\t", "\n", "\n", "\r\n", "é", "é", "€", "😀", "x", "1", "\n"]
-    nrand = 12000 if thorough else 1500
+    nrand = 12000 if thorough else 900
     for k in range(nrand):
         mode = k % 4  # 0 ascii, 1 ascii prefix then anything, 2 anything, 3 anything with dups
         n = rng.randint(0, 40)
@@ -182,7 +183,7 @@ TOKS = ["local", "x", "y1", "_z", "=", ";", "1", "2.5", "1e3", "0", "+", "-", "*
 TRIVIA = [" ", "  ", "\n", "\r\n", "\t", "// c\n", "# é\n", "/* m */", "/* é\n😀 */", "//\r\n", " ", " ", "\n"]
 BLOCKS = ["|||\n  text\n|||", "|||\n  é line\n  more\n|||", "|||-\n\tx\n\n\ty\n|||", "|||\n  a\n |||", "|||\nx\n|||",
           "||| x\n  a\n|||", "|||\n  unterminated", "|||", "|||\n", "|||\n  a\n", "|||\r\n  a\r\n|||", "|||\n  a\n  |||",
-          "|||\n\n\n  a\n|||"]
+          "|||\n\n\n  a\n|||", "|||\n  a\n|||é", "|||\n  a\n|||😀x", "|||\n  a\n|||€|||"]
 HOSTILE = ["\"", "'", "|||", "||", "|", "/*", "*/", "/", "*", "@", "\\", "é", "😀", "€", "\r\n", "\r", "\n", "1", ".", "e",
            "E", "+", "-", "_", "0", "9", "a", " ", "\t", "#", "//", " ", " ", "{", "}", "(", "$", "`", "^", ":"]
 VALID = ["local a = 1; a + error \"é\" + [1, 2][0]", "{ a: 1, b+: { c: 'é' }, [\"k\"]:: 3, assert true : 'm' }",
@@ -199,7 +200,7 @@ def lex_inputs(run):
     for b in BLOCKS:
         ins.append("local a = " + b + "; a")
         ins.append(b + " + " + b)
-    n1 = 6000 if thorough else 700
+    n1 = 6000 if thorough else 550
     for _ in range(n1):  # token sequences
         parts = []
         for _ in range(rng.randint(1, 12)):
@@ -226,10 +227,11 @@ def lex_inputs(run):
 def part_lex(run, binary, inputs):
     failures = []
     reqs = [{"text": t} for t in inputs]
-    lex = core.run_harness(binary, "lex", reqs)
-    row = core.run_harness(binary, "rowan", reqs)
-    sp_ir = core.run_harness(binary, "spans", [{"text": t, "parser": "ir"} for t in inputs])
-    sp_peg = core.run_harness(binary, "spans", [{"text": t, "parser": "peg"} for t in inputs])
+    allr = core.run_harness(binary, "textall", reqs)
+    lex = [a.get("lex", a) if isinstance(a, dict) else a for a in allr]
+    row = [a.get("rowan", a) if isinstance(a, dict) else a for a in allr]
+    sp_ir = [a.get("ir", a) if isinstance(a, dict) else a for a in allr]
+    sp_peg = [a.get("peg", a) if isinstance(a, dict) else a for a in allr]
     coq_check = []
     for t, lx, rw, si, sg in zip(inputs, lex, row, sp_ir, sp_peg):
         raw = t.encode("utf-8")
@@ -338,6 +340,7 @@ CONSTRUCTS = [
     ("1 +", 3, None, "syntax-eof"),
     ("std.trace(\"T{n}\", 1)", 9, None, "trace"),  # the call location is the argument list
     ("error \"é\" + 1", 0, 5, "runtime"),
+    ("std.trace(\"T{n}\",\n  1)", 9, None, "trace"),  # a call over two lines: the line of the call is the first
     ("assert (1 ==\n 2) : \"m\"; 0", 7, 9, "runtime-multiline"),
 ]
 
@@ -347,7 +350,7 @@ def pos_cases(run):
     thorough = run.tier == "thorough"
     cases = []
     n = 0
-    total = 6000 if thorough else 700
+    total = 6000 if thorough else 520
     for k in range(total):
         cons, loff, llen, kind = CONSTRUCTS[k % len(CONSTRUCTS)]
         if kind == "none":
@@ -476,6 +479,41 @@ def part_pos(run, binary, cases):
             diffs.append({"case": case, "model": list(pred), "code": list(got)})
         if len(run.samples) < 8 and not nonascii_before and any(ord(ch) > 127 for ch in text):
             run.samples.append({"part": "pos", "text": text, "planted": exp, "printed": mm.group(0)})
+    # the same runtime cases through JsFormat: "at desc (path:line:column)"
+    js = [c for c in ev if c["kind"] == "runtime"]
+    if js:
+        jouts = core.run_harness(binary, "errjs", [{"code": c["text"]} for c in js])
+        jmodel = core.coq_eval(IMPORTS, [
+            f"[let l := offset_to_location Cur {cq_nlist(cps(c['text']))} [{c['start']}; {c['end']}] in print_js (nth 0 l zero_loc); "
+            f"let l := offset_to_location Fixed {cq_nlist(cps(c['text']))} [{c['start']}; {c['end']}] in print_js (nth 0 l zero_loc)]"
+            for c in js])
+        for c, o, m in zip(js, jouts, jmodel):
+            text = c["text"]
+            exp = spec_pos(text, c["start"])
+            pre_end = text.encode("utf-8")[:c["end"]].decode("utf-8", "ignore")
+            nonascii_before = any(ord(ch) > 127 for ch in pre_end)
+            run.note_case("js:" + text, True)
+            run.count("pos:jsformat:" + ("nonascii-before" if nonascii_before else "other"))
+            case = {"part": "js", "text": text, "kind": c["kind"], "planted": {"line": exp[0], "col": exp[1]}}
+            if isinstance(m, tuple) and m and m[0] == "ERROR":
+                run.obligation("model.eval(js)", False, str(m[1])[:300])
+                continue
+            pred = tuple(m[1] if fixed_mode else m[0])
+            mm = re.search(r"<cmdline>:(\d+):(\d+)\)", (o.get("js") or "").split("\n", 1)[-1]) if isinstance(o, dict) else None
+            if not mm:
+                failures.append({"case": case, "summary": "C17 JsFormat printed no location for the planted construct",
+                                 "expected": list(exp), "got": o})
+                continue
+            got = (int(mm.group(1)), int(mm.group(2)))
+            if got != exp:
+                f = {"case": case, "summary": f"C17 JsFormat: construct at {exp[0]}:{exp[1]} reported at {got[0]}:{got[1]}: "
+                                              f"{json.dumps(text, ensure_ascii=False)[:120]}",
+                     "expected": list(exp), "got": list(got)}
+                if got == pred:
+                    f["known"] = K_MB if (nonascii_before and not fixed_mode) else K_JS
+                failures.append(f)
+            elif got != pred:
+                diffs.append({"case": case, "model": list(pred), "code": list(got)})
     # std.trace through the real StdTracePrinter (stderr of one harness process)
     if tr:
         data = "".join(json.dumps({"code": c["text"], "out": "none"}, ensure_ascii=False) + "\n" for c in tr)
@@ -577,6 +615,8 @@ def replay(run, data):
             print(f"now {sub:5}:", core.run_harness(binary, sub, [{"text": c["text"]}])[0])
     elif part == "pos":
         print("now     :", core.run_harness(binary, "eval", [{"code": c["text"], "errtext": True, "out": "none"}])[0])
+    elif part == "js":
+        print("now     :", core.run_harness(binary, "errjs", [{"code": c["text"]}])[0])
     else:
         print(json.dumps(data, indent=1)[:3000])
         return 1
